@@ -9,8 +9,7 @@ the options. The theorems relate the decoder object (`Fit.DecApi.run`, the model
 code) to that specification for **every** history, every byte stream, every option set and every factory.
 
 PROPERTY THEOREMS (audited by ./check): C07_decode_from_clean, C07_boundary_clean, C07_reset_is_new,
-C07_integrity_check_is_new, C07_history_indep_partial,
-C07_rejected_everywhere_partial, C07_full_fails, C07_witness_peek_past
+C07_integrity_check_is_new, C07_history_indep, C07_rejected_everywhere, C07_peek_transparent, C07_former_witnesses
 -/
 namespace Fit.C07
 open Fit.DecApi
@@ -143,11 +142,7 @@ theorem C07_boundary_clean (a : Api) (op : Op) (ha : a.d.q.err = none) (h : ends
       rcases hp : peekLoop (fuelOf s1) s1 with ⟨s2, evs, r⟩
       rw [hp] at hh
       cases r with
-      | ok u =>
-        simp only at hh
-        cases hq : s2.q.fileId with
-        | none => rw [hq] at hh; cases hh
-        | some f => rw [hq] at hh; cases hh
+      | ok u => cases hh
       | err e => cases hh
       | panic => cases hh
       | hang => cases hh
@@ -208,22 +203,19 @@ def Agree (o : Opts) (bytes : List Nat) (ops : List Op) : Prop :=
 instance (o : Opts) (bytes : List Nat) (ops : List Op) : Decidable (Agree o bytes ops) := by
   unfold Agree; infer_instance
 
-/-- **History independence** (the property): for every byte stream, every option set and factory, and every history of
-API calls — chained sequences decoded, discarded, peeked and then decoded or discarded, `Next`, integrity checks followed
-by the re-seek, failed decodes, resets onto new readers with other options — every result the decoder object returns is
-the result the specification computes with new decoders only. Hypotheses: the streams are byte strings shorter than 4 GiB
-(`Decoder.cur` is a uint32), the factories' components are acyclic (`FacOK`: the contract of `decoder.Factory` — the real
-code recurses through them), and no `PeekFileId` of the history reads past the data window of its sequence — the class of
-the open finding F09 (KF-C07-2), outside of which the statement is unconditional. -/
-theorem C07_history_indep_partial (o : Opts) (bytes : List Nat) (ops : List Op) (hb : Small bytes) (hf : FacOK o.fac)
-    (hops : ∀ op ∈ ops, OpSmall op) (hnp : NoPeekPast (Api.fresh o bytes) ops) : Agree o bytes ops := by
-  refine sim_run ops (Api.fresh o bytes) (Spec.fresh o bytes) ⟨rfl, ⟨hb, hf⟩, hb, ?_⟩ hops hnp
+/-- **History independence** (the property, at full strength): for every byte stream, every option set and factory, and
+every history of API calls — chained sequences decoded, discarded, peeked and then decoded or discarded, `Next`,
+integrity checks followed by the re-seek, failed decodes, contexts cancelled before or during `DecodeWithContext`, resets
+onto new readers with other options — every result the decoder object returns is the result the specification computes
+with new decoders only. Hypotheses: the streams are byte strings shorter than 4 GiB (`Decoder.cur` is a uint32) and the
+factories' components are acyclic (`FacOK`: the contract of `decoder.Factory` — the real code recurses through them).
+(Before the repair of F09 — KF-C07-2, `PeekFileId` reading past a sequence without file_id — the statement needed the
+hypothesis that no `PeekFileId` of the history does so, and was false without it.) -/
+theorem C07_history_indep (o : Opts) (bytes : List Nat) (ops : List Op) (hb : Small bytes) (hf : FacOK o.fac)
+    (hops : ∀ op ∈ ops, OpSmall op) : Agree o bytes ops := by
+  refine sim_run ops (Api.fresh o bytes) (Spec.fresh o bytes) ⟨rfl, ⟨hb, hf⟩, hb, ?_⟩ hops
   show (_ ∧ _)
   exact ⟨rfl, rfl⟩
-
-/-- the full statement: no hypothesis about `PeekFileId` -/
-def C07_history_indep_full : Prop :=
-  ∀ (o : Opts) (bytes : List Nat) (ops : List Op), Small bytes → FacOK o.fac → (∀ op ∈ ops, OpSmall op) → Agree o bytes ops
 
 /-! ### witnesses -/
 
@@ -232,40 +224,47 @@ def S : List Nat := [14, 32, 154, 82, 2, 0, 0, 0, 46, 70, 73, 84, 222, 98, 0, 7,
 def Q : List Nat := [14, 32, 154, 82, 11, 0, 0, 0, 46, 70, 73, 84, 30, 8, 64, 0, 0, 20, 0, 1, 3, 1, 2, 0, 9, 112, 213]
 def B : List Nat := [14, 32, 154, 82, 11, 0, 0, 0, 46, 70, 73, 84, 30, 8, 64, 0, 0, 0, 0, 1, 0, 1, 0, 0, 4, 84, 208]
 
-/-- F09 (open finding KF-C07-2): `Q` has no file_id message: `PeekFileId` reads past it and `Decode` then rejects a
-sequence a new decoder accepts. -/
-theorem C07_witness_peek_past : ¬ Agree {} (Q ++ P) [.peekFileId, .decode] := by decide
-
 theorem small_of_decide (l : List Nat) (h : (l.all (· < 256) && decide (l.length < 4294967296)) = true) : Small l := by
   simp only [Bool.and_eq_true, List.all_eq_true, decide_eq_true_eq] at h
   exact ⟨fun b hb => h.1 b hb, h.2⟩
 
 theorem facOK_nil : FacOK [] := ⟨fun _ _ => 0, fun _ _ => (by decide : (0 : Nat) < 256), by intro e he; cases he⟩
 
-/-- … so the full statement is false on the pinned tree -/
-theorem C07_full_fails : ¬ C07_history_indep_full := by
-  intro h
-  exact C07_witness_peek_past (h {} (Q ++ P) [.peekFileId, .decode] (small_of_decide _ (by decide)) facOK_nil
-    (by intro op hop; simp only [List.mem_cons, List.mem_nil_iff, or_false] at hop; rcases hop with rfl | rfl <;> trivial))
+def isFileIdOut : Out → Bool
+  | .fileId _ => true
+  | _ => false
 
-/-- Non-vacuity of `C07_history_indep_partial`: histories with peeks, discards, an integrity check and a reset meet its
-hypotheses (and the witnesses of the two repaired defects F08 and F10 now agree with the specification). -/
-example : Small (P ++ S) ∧ NoPeekPast (Api.fresh {} (P ++ S)) [.peekFileId, .discard, .decode] ∧
-    NoPeekPast (Api.fresh {} (P ++ B ++ S)) [.checkIntegrity, .next, .peekFileId, .decode, .decode, .reset {} S, .decode] ∧
-    OpSmall (.reset {} S) :=
-  ⟨small_of_decide _ (by decide), by decide, by decide, small_of_decide _ (by decide), facOK_nil⟩
+/-- **`PeekFileId` is transparent, also for a sequence without file_id message** (the former F09): on `Q ++ P` (`Q` has
+no file_id) the peek answers with a FileId whose fields are all invalid and stops at the end of `Q`'s messages; the
+`Decode` that follows returns `Q` as a new decoder does, and the next `Decode` returns `P`. -/
+theorem C07_peek_transparent :
+    ((run (Api.fresh {} (Q ++ P)) [.peekFileId, .decode, .decode]).map (·.1)).tail =
+      (run (Api.fresh {} (Q ++ P)) [.decode, .decode]).map (·.1) ∧
+    ((run (Api.fresh {} (Q ++ P)) [.peekFileId]).map (fun r => isFileIdOut r.1)) = [true] := by decide
 
-example : Agree {} (P ++ S) [.peekFileId, .discard, .decode] ∧ Agree {} P [.peekFileId, .reset {} S, .decode] ∧
+/-- the witnesses of the three repaired findings (F08: look-ups surviving `Discard` / `Reset` after a peek; F09: peek past
+a sequence without file_id; F10: stale buffer after a failing `CheckIntegrity`) now agree with the specification (each is
+an instance of `C07_history_indep`; evaluated here on the model the driver runs) -/
+theorem C07_former_witnesses : Agree {} (Q ++ P) [.peekFileId, .decode] ∧ Agree {} (Q ++ P) [.peekFileId, .discard, .decode] ∧
+    Agree {} (P ++ S) [.peekFileId, .discard, .decode] ∧ Agree {} P [.peekFileId, .reset {} S, .decode] ∧
     Agree {} (P ++ B ++ S) [.checkIntegrity, .decode] := by decide
+
+/-- Non-vacuity of `C07_history_indep`: its hypotheses are met by histories with peeks, discards, an integrity check, a
+context cancelled during `DecodeWithContext` after a peek, and a reset -/
+example : Small (P ++ S) ∧ Small (P ++ B ++ S) ∧ OpSmall (.reset {} S) ∧ FacOK ([] : Factory) :=
+  ⟨small_of_decide _ (by decide), small_of_decide _ (by decide), ⟨small_of_decide _ (by decide), facOK_nil⟩, facOK_nil⟩
+
+example : Agree {} (P ++ B ++ S) [.checkIntegrity, .next, .peekFileId, .decode, .decode, .reset {} S, .decode] ∧
+    Agree { ml := true } (P ++ P) [.peekFileId, .decodeCtxAt 0, .decode, .reset { ml := true } P, .decodeCtxAt 2, .decode] := by decide
 
 /-- **A sequence a new decoder rejects is rejected in every context** (corollary): if the specification says that the
 `Decode` at position `i` of the history must fail with `e` — i.e. a decoder created on exactly the bytes of that sequence
 fails with `e` — then the decoder object fails with `e` there, whatever preceded. -/
-theorem C07_rejected_everywhere_partial (o : Opts) (bytes : List Nat) (ops : List Op) (hb : Small bytes) (hf : FacOK o.fac)
-    (hops : ∀ op ∈ ops, OpSmall op) (hnp : NoPeekPast (Api.fresh o bytes) ops) (i : Nat) (e : Err) (evs : List Event)
+theorem C07_rejected_everywhere (o : Opts) (bytes : List Nat) (ops : List Op) (hb : Small bytes) (hf : FacOK o.fac)
+    (hops : ∀ op ∈ ops, OpSmall op) (i : Nat) (e : Err) (evs : List Event)
     (hspec : (specRun (Spec.fresh o bytes) ops)[i]? = some (some (.err e, evs))) :
     (run (Api.fresh o bytes) ops)[i]? = some (.err e, evs) := by
-  have hag := C07_history_indep_partial o bytes ops hb hf hops hnp
+  have hag := C07_history_indep o bytes ops hb hf hops
   have hlen : ∀ (ops : List Op) (a : Api) (p : Spec), (run a ops).length = (specRun p ops).length := by
     intro ops
     induction ops with
